@@ -770,6 +770,9 @@ int main()
     if (h.size() == 5 && h[0] == "dubins" && kv("rho", h[1]) && (h[2] == "sym=0" || h[2] == "sym=1") && kv("lo", h[3]) &&
         kv("hi", h[4]))
         return runDubins(*kv("rho", h[1]), h[2] == "sym=1", *kv("lo", h[3]), *kv("hi", h[4]));
+    // optional 5th token `zero=<bits>`: tells drv_dubins the ZERO constant of the ReedsSheppStateSpace.cpp under test (ignored here)
+    if (h.size() == 5 && h[0] == "rs" && h[4].rfind("zero=", 0) == 0)
+        h.pop_back();
     if (h.size() == 4 && h[0] == "rs" && kv("rho", h[1]) && kv("lo", h[2]) && kv("hi", h[3]))
         return runRS(*kv("rho", h[1]), *kv("lo", h[2]), *kv("hi", h[3]));
     if (h.size() == 5 && h[0] == "vanaowen" && kv("rho", h[1]) && kv("pitch", h[2]) && kv("lo", h[3]) && kv("hi", h[4]))
